@@ -76,7 +76,7 @@ CHECKS["C05"] = {
     "technique": "stateless exhaustive exploration of all await-level interleavings up to a preemption bound (CHESS-style) of 2..4 concurrent calls on the real Collection, plus all lock-granularity schedules up to a preemption bound of 2..3 OS threads in the synchronous extension calls, each execution decided by a linearizability search against the sequential model",
     "design_ref": "DESIGN.md 5/C05, 2.2",
     "text": "Every subset of 2 (preemption bound 2) and 3 (bound 1) concurrent calls — thorough: 2@3, 3@2, 4@1, 3@3 — from {add x2, update same document different fields x3, update other document, remove x2 of one document, remove other, get, save_extension, flush} runs on a collection preloaded with two flushed documents over a store that makes every backend call a scheduling point before it takes effect; all schedules within the bound are enumerated and for each the return values and the final documents, indexes and counts must equal those of some order of the calls that respects real-time order per document. Deadlock and non-termination are violations. The deciding step is exhaustive enumeration of schedules, which is the only way to close windows a few instructions wide (doc-lock stripes, operation gate, versioned put, cache generations). thread: the synchronous extension calls (set_extension_with, set_extension_from_with, set_extension, get_extension, extensions_with) never await, so 15 templates of 2..3 real OS threads on the same 1..2 keys (increment vs increment, compare-and-set races, set vs increment vs get, two keys vs a whole-map snapshot) are run one thread at a time with a yield point inside every caller closure and a visible wait on the real metadata lock before every acquisition; all schedules up to 3 preemptions (thorough: up to 8) are enumerated and every call/return history with its return values must be linearizable against a plain map, the final extensions must equal that order and be what flush + reconnect reads back.",
-    "note": "Single-threaded executor: code between two suspension points is atomic (the property's own quantifier); OS-thread parallelism inside the index calls is explored by the THREAD parts of C04/C10/C11, inside the synchronous extension calls by this check's thread part; OS-thread parallelism inside the async calls between two awaits is not explored. The property's 'randomized multi-threaded executions' are sampling and are not built. The state a concurrent flush persisted is not yet compared (only the final state).",
+    "note": "Single-threaded executor: code between two suspension points is atomic (the property's own quantifier); OS-thread parallelism inside the index calls is explored by the THREAD parts of C04/C10/C11, inside the synchronous extension calls by this check's thread part; OS-thread parallelism inside the async calls between two awaits is not explored. The property's 'randomized multi-threaded executions' are sampling and are not built. The state a concurrent flush persisted is recovered by a fresh process from the store content captured when the flush returned: per document an image of some prefix of the accepted order that contains every call returned before the flush began (per-document images, not one global prefix), indexes agreeing with the recovered documents.",
     "parts": [
         {"part": "step", "crate": "vdb", "bin": "c05_step", "args": ["--property", "C05"], "budget_quick": 35, "budget_thorough": 1500},
         {"part": "thread", "crate": "vthread", "bin": "c05_thread", "budget_quick": 8, "budget_thorough": 600},
